@@ -671,6 +671,8 @@ class Engine(object):
                 a, b = b, a
             if isinstance(b, VNone):
                 return a.isnone
+            if not isinstance(b, VOptSym):
+                return And(Not(a.isnone), self.v_is(a.val, b, st))
             raise Undecided('is between optional values')
         if isinstance(a, VNone) or isinstance(b, VNone):
             return BoolV(isinstance(a, VNone) and isinstance(b, VNone))
